@@ -2605,6 +2605,14 @@ class Interp:
     def opaque_attr(self, o: Opaque, attr, n):
         decl = self.w.registry.opaque_attrs.get((o.kind, attr)) or self.w.registry.opaque_attrs.get(('*', attr))
         if decl is None:
+            me = self.env.get('self')
+            if isinstance(me, Opaque) and me.kind == o.kind and self.cls and self.module:
+                # a method of the class the verified function belongs to that no contract mentions (e.g. a helper extracted from
+                # the function): interpreted from its source like any other callee without a contract
+                cdef = self.w.repo.find_class(self.module, self.cls)
+                for item in (cdef.body if cdef is not None else []):
+                    if isinstance(item, ast.FunctionDef) and item.name == attr:
+                        return BoundMeth(o, attr, Closure(item, {}, self.module, self.cls))
             self.oos(f'undeclared attribute {attr} of opaque {o.kind}', n)
         kind, sortname = decl
         if kind == 'contract':
